@@ -46,7 +46,9 @@ RefDeAt(bs, i) ==
          ELSE IF i + k - 1 > Len(bs) THEN <<"err">>
          ELSE LET blob == <<b - (256 - Pow2(8 - k))>> \o SubSeq(bs, i + 1, i + k - 1) IN
               IF TooLargeForFormat(blob) THEN <<"err">>
-              ELSE IF TooLargeForModel(blob) THEN <<"oom">>
+              \* a size of 2^31 or more that the format allows: no input TLC or the harness can hold has that many
+              \* bytes left, so the announced atom is cut short -- an error in every decoder
+              ELSE IF TooLargeForModel(blob) THEN <<"err">>
               ELSE LET n == UnsignedOf(StripZeros(blob)) IN
                    IF i + k - 1 + n > Len(bs) THEN <<"err">>
                    ELSE <<"ok", A(SubSeq(bs, i + k, i + k - 1 + n)), i + k + n>>
@@ -66,7 +68,7 @@ ReadAtom(bs, i) ==   \* atom_from_stream after the first byte bs[i]; <<"ok", ato
             IF avail # k - 1 THEN <<"err", next>>
             ELSE LET blob == <<b - (256 - Pow2(8 - k))>> \o SubSeq(bs, i + 1, i + k - 1) IN
                  IF TooLargeForFormat(blob) THEN <<"err", next>>
-                 ELSE IF TooLargeForModel(blob) THEN <<"oom", next>>
+                 ELSE IF TooLargeForModel(blob) THEN <<"err", Len(bs) + 1>>      \* f.read(size) takes all that is left: too few
                  ELSE LET n == UnsignedOf(StripZeros(blob))
                           got == IF next + n - 1 > Len(bs) THEN Len(bs) - next + 1 ELSE n IN
                       IF got # n THEN <<"err", next + got>>
